@@ -110,10 +110,25 @@ func (c *Cluster) handleOffsetForLeaderEpoch(creq *clientReq) (kmsg.Response, er
 			nextEpoch := rp.LeaderEpoch + 1
 			si, mi, cur := pd.findBatchMeta(int64(nextEpoch), func(m *batchMeta) int64 { return int64(m.epoch) })
 
-			// Requested epoch is not yet known: keep -1 returns.
+			// No batch was written in a later epoch. If the
+			// requested epoch is newer than ours it is not yet
+			// known: keep -1 returns. Otherwise the requested (or
+			// the largest earlier) epoch is the last one with data
+			// and it ends at the log end, exactly as if our epoch
+			// had been bumped without anything being produced.
 			if cur == nil {
-				sp.LeaderEpoch = -1
-				sp.EndOffset = -1
+				if rp.LeaderEpoch > pd.epoch {
+					sp.LeaderEpoch = -1
+					sp.EndOffset = -1
+					continue
+				}
+				for i := len(pd.segments) - 1; i >= 0; i-- {
+					if idx := pd.segments[i].index; len(idx) > 0 {
+						sp.LeaderEpoch = idx[len(idx)-1].epoch
+						break
+					}
+				}
+				sp.EndOffset = pd.highWatermark
 				continue
 			}
 
